@@ -93,6 +93,9 @@ func poolOf(c *Case) []string {
 type rewriter struct {
 	args  func(api string, args []Arg) []Arg
 	items func(items []SItem) []SItem
+	// keepDicts: Dict arguments are copied unchanged (a Dict orders its pairs by the rendered
+	// text of the keys, so rewriting inside a pair can legitimately reorder the pairs)
+	keepDicts bool
 }
 
 func (rw *rewriter) arg(a Arg) Arg {
@@ -100,6 +103,9 @@ func (rw *rewriter) arg(a Arg) Arg {
 	case *Stmt:
 		return &Stmt{Items: rw.itemsOf(x.Items)}
 	case *Dict:
+		if rw.keepDicts {
+			return x
+		}
 		d := &Dict{}
 		for _, p := range x.Pairs {
 			d.Pairs = append(d.Pairs, [2]Arg{rw.arg(p[0]), rw.arg(p[1])})
